@@ -31,7 +31,8 @@ EXTRAS = [('One-time Grants Etc', 0, 10), ('Other Incentives', 0, 5), ('One-time
 MAXV = {'Total Capital Cost': 1000, 'Total O&M Cost': 100, 'Reservoir Stimulation Capital Cost': 1000, 'Exploration Capital Cost': 100,
         'Surface Plant Capital Cost': 1000, 'Field Gathering System Capital Cost': 100, 'Wellfield O&M Cost': 100,
         'Surface Plant O&M Cost': 100, 'Water Cost': 100, 'Well Drilling and Completion Capital Cost': 200,
-        'Injection Well Drilling and Completion Capital Cost': 200, 'One-time Grants Etc': 1000, 'Other Incentives': 1000,
+        'Injection Well Drilling and Completion Capital Cost': 200, 'Well Drilling and Completion Capital Cost Adjustment Factor': 10,
+        'Injection Well Drilling and Completion Capital Cost Adjustment Factor': 10, 'One-time Grants Etc': 1000, 'Other Incentives': 1000,
         'One-time Flat License Fees Etc': 1000, 'Annual License Fees Etc': 1000, 'Tax Relief Per Year': 100, 'Electricity Rate': 1.0,
         'Peaking Fuel Cost Rate': 1.0, 'Heat Pump Capital Cost': 100, 'Absorption Chiller Capital Cost': 100,
         'Absorption Chiller O&M Cost': 100, 'Total District Heating Network Cost': 1000, 'District Heating O&M Cost': 100}
@@ -59,14 +60,26 @@ def cases(draw, tier):
     else:
         for n, lo, hi in COMPONENTS:
             cost.append([n, gen.fmt(draw(gen.nice_floats(lo, hi)))])
-    for n, lo, hi in WELLS[:1 if draw(st.booleans()) else 2]:
-        cost.append([n, gen.fmt(draw(gen.nice_floats(lo, hi)))])
+    if not use_totals and draw(st.integers(0, 2)) == 0:
+        # well costs from the built-in correlation, sized by the adjustment factors (the scalable cost figure is then the factor)
+        fa = draw(gen.nice_floats(0.3, 3.0))
+        cost.append(['Well Drilling and Completion Capital Cost Adjustment Factor', gen.fmt(fa)])
+        cost.append(['Injection Well Drilling and Completion Capital Cost Adjustment Factor', gen.fmt(draw(st.one_of(st.just(fa), gen.nice_floats(0.3, 3.0))))])
+        if draw(st.booleans()):
+            cost.append(['Well Drilling Cost Correlation', str(draw(st.sampled_from([1, 2, 3, 4, 6, 7, 8, 9, 10, 11, 12, 13, 14, 15, 16, 17])))])
+        labels.append('well_cost_from_correlation_x_factor')
+    else:
+        for n, lo, hi in WELLS[:1 if draw(st.booleans()) else 2]:
+            cost.append([n, gen.fmt(draw(gen.nice_floats(lo, hi)))])
     if use_totals:
         cost.append(['Reservoir Stimulation Capital Cost', gen.fmt(draw(gen.nice_floats(0.5, 50)))])
     for n, lo, hi in EXTRAS:
         if draw(st.integers(0, 3)) == 0:
             cost.append([n, gen.fmt(draw(gen.nice_floats(lo, hi)))])
-    cost.append(['Electricity Rate', gen.fmt(draw(gen.nice_floats(0.01, 0.3)))])
+    if relation in ('scale', 'efficiency', 'neutral') or draw(st.booleans()):
+        cost.append(['Electricity Rate', gen.fmt(draw(gen.nice_floats(0.01, 0.3)))])
+    else:
+        labels.append('purchase_rate_left_at_default')  # price relations do not need every cost stated
     if surface == 'district':
         cost.append(['Peaking Fuel Cost Rate', gen.fmt(draw(gen.nice_floats(0.005, 0.2)))])
     if surface == 'heatpump' and draw(st.booleans()):
